@@ -26,6 +26,9 @@ type Share struct {
 	Pos  string // regexp over the obligation's source position ("" = anywhere)
 	Why  string // why the clause is a necessary condition of To
 	Seed string // the seeded defect(s) of To that exhibited the dependency
+	// Zero: the owning rule expects no instance of these constructs on a healthy tree ("no store
+	// to a shared Rule"), so the share legitimately matches nothing today.
+	Zero bool
 }
 
 const (
@@ -96,7 +99,7 @@ var Shares = []Share{
 	// C12: transformation cache
 	{To: "C12", From: "C14", Rule: "R5", Why: "the cached value is the running value: what is stored and returned must be the chain's output", Seed: "C12-H"},
 	{To: "C12", From: "C14", Rule: "R1", Why: "a cached string aliasing a reused buffer is silently replaced by a later value", Seed: "C12-D C12-F"},
-	{To: "C12", From: "C06", Rule: "R1", Key: `corazawaf\.Rule`, Why: "a transformed value parked in the shared rule is another transaction's value", Seed: "C12-I"},
+	{To: "C12", From: "C06", Rule: "R1", Key: `corazawaf\.Rule`, Why: "a transformed value parked in the shared rule is another transaction's value", Seed: "C12-I", Zero: true},
 
 	// C13: pattern caching invisible
 	{To: "C13", From: "C12", Rule: "R2", Why: "cache keys must identify what they cache at full width", Seed: "C13-I"},
